@@ -56,6 +56,34 @@ def cat(ob, d, p, dim):
     ob.frame()
 
 
+@scenario('C09', 'cat.mixed_dtype', 'torchtt._extras.cat', quick=[dict(d=d, first=f) for d in (1, 2) for f in ('real', 'complex')], replay='cat')
+def cat_mixed(ob, d, first):
+    """operands of different dtypes in one call (torch.cat promotes): a real and a complex tensor give the complex concatenation"""
+    ex = ob.ex
+    N = H.sym_sizes(ex, 'N', d)
+    dts = ('float64', 'complex128') if first == 'real' else ('complex128', 'float64')
+    ts = []
+    for j in range(2):
+        Nj = list(N)
+        Nj[0] = H.sym_sizes(ex, 't%d_n' % j, 1)[0]
+        ts.append(ob.tt('t%d' % j, d, N=Nj, dtype=dts[j]))
+    ob.replay_args = {'tensors': ['t0', 't1'], 'dim': 0}
+    r = ex.call(extras(ex, 'cat'), [tuple(ts), 0])
+    ob.wf(r)
+    prove_dtype(ob, r, 'complex128')
+    f = fields(ob, r)
+    if len(f['N']) == d and all(c._val is not None for c in r.attrs['cores']):
+        idx = mode_index(ob, r)
+        off = 0
+        for j, t in enumerate(ts):
+            for _ in ob.case(z3.And(idx[0] >= off, idx[0] < off + t.N_[0])):
+                sub = list(idx)
+                sub[0] = idx[0] - off
+                ob.prove_eq('value.block%d' % j, val(ob, r, idx), val(ob, t, sub))
+            off = off + t.N_[0]
+    ob.frame()
+
+
 def grid_pad(dmax, ttm):
     out = []
     for d in range(1, dmax + 1):
